@@ -3,12 +3,14 @@
    Each model contributes one line: its Entry module's [entry]. *)
 From DippyV Require Import Base.Str Base.Sx Entry.Common.
 From DippyV Require Entry.WalkerE.
+From DippyV Require Entry.StatuslineE.
 
 Definition run (orc : oracle) (inp : sx) : sx :=
   match inp with
   | L (A cmd :: args) =>
       first_some [
-        Entry.WalkerE.entry orc cmd args
+        Entry.WalkerE.entry orc cmd args;
+        Entry.StatuslineE.entry orc cmd args
       ]
   | _ => A $"?malformed-request"
   end.
